@@ -5,7 +5,9 @@ import ast
 
 from ..cfg import handler_names
 from ..core import AnalysisError, calls_in, call_name, unparse, walk_no_nested
-from ..match import inline, single_assignments
+from ..cfg import CFG
+from ..match import canon, inline, single_assignments
+from ..facts import assign_facts
 from ..report import Ctx
 from .c08 import _event
 
@@ -25,30 +27,40 @@ ASSUMPTIONS = ["equality with the hand-expanded program is a metamorphic relatio
 
 def r1_if(ctx: Ctx) -> None:
     fn = ctx.repo.func(CODEGEN, "generate_if")
-    env = single_assignments(fn.node)
+    g = CFG(fn.node)
     tries = [s for s in fn.node.body if isinstance(s, ast.Try)]
     if len(tries) != 1:
         raise AnalysisError("generate_if: expected one try around the condition")
     t = tries[0]
-    ok = len(t.body) == 1 and unparse(t.body[0]) == "condition = eval_expression(node.expression, resolver)"
-    ctx.check(ok, "generate_if:condition", f"the condition is the directive's expression; found {[unparse(b) for b in t.body]}")
+    cond_assigns = [s for s in t.body if isinstance(s, ast.Assign) and isinstance(s.targets[0], ast.Name)]
+    if len(t.body) != 1 or len(cond_assigns) != 1:
+        raise AnalysisError("generate_if: the guarded statement is not a single assignment of the condition")
+    V = cond_assigns[0].targets[0].id  # type: ignore[union-attr]
+    src = canon(fn.node, cond_assigns[0].value)
+    base = "eval_expression(node.expression, resolver)"
+    ctx.check(src in (base, f"{base} != 0", f"bool({base})", f"0 != {base}"), "generate_if:condition",
+              f"the condition is the directive's expression, tested for non-zero; found `{src}`")
     for h in t.handlers:
         names = handler_names(h)
         ctx.check(names is not None and names <= {"KeyError", "SymbolNotDefined"}, f"generate_if:except {unparse(h.type)}", "only an undefined name makes the condition false; other errors propagate")
-        ctx.check([unparse(b) for b in h.body] in (["condition = False"], ["condition = 0"]), f"generate_if:handler-value {unparse(h.type)}", "an undefined name counts as false")
-    sel = [s for s in fn.node.body if isinstance(s, ast.If)]
-    if len(sel) != 1:
-        raise AnalysisError("generate_if: expected one selection statement")
-    s = sel[0]
-    ctx.check(unparse(s.test) == "condition", "generate_if:test", f"selects on the truth of the condition (non-zero); found `{unparse(s.test)}`")
-    def expands(body: list[ast.stmt]) -> list[str]:
-        return [unparse(inline(c.args[0], env)) for b in body for c in calls_in(b) if call_name(c) == "_code_gen"]
-    ctx.check(expands(s.body) == ["node.block.body"], "generate_if:then-arm", f"expands exactly the first block; found {expands(s.body)}")
-    els = s.orelse
-    ok = len(els) == 1 and isinstance(els[0], ast.If) and unparse(inline(els[0].test, env)) == "node.else_block" and expands(els[0].body) == ["node.else_block.body"] and not els[0].orelse
-    ctx.check(ok, "generate_if:else-arm", "otherwise expands exactly the else block when there is one, else nothing")
+        hv = [unparse(b.value) for b in h.body if isinstance(b, ast.Assign) and unparse(b.targets[0]) == V]
+        ctx.check(hv in (["False"], ["0"]) and all(isinstance(b, (ast.Assign, ast.Expr)) for b in h.body), f"generate_if:handler-value {unparse(h.type)}", f"an undefined name counts as false; handler sets {hv}")
     gens = [c for c in calls_in(fn.node) if call_name(c) == "_code_gen"]
-    ctx.check(len(gens) == 2, "generate_if:nothing-else", f"{len(gens)} expansions in total")
+    ctx.check(len(gens) == 2, "generate_if:nothing-else", f"{len(gens)} expansions in total (then, else)")
+    seen = {}
+    for c in gens:
+        what = canon(fn.node, c.args[0])
+        conds = g.path_conditions(g.node_containing(c), fn.node)
+        seen[what] = conds
+    then_c = seen.get("node.block.body")
+    else_c = seen.get("node.else_block.body")
+    def truth(conds, want: bool) -> bool:
+        if conds is None:
+            return False
+        return any(t_ in (V, f"{V} != 0", f"{V} is True") and pol == want for t_, pol in conds) or any(t_ in (f"{V} == 0",) and pol != want for t_, pol in conds)
+    ctx.check(truth(then_c, True), "generate_if:then-arm", f"the first block is expanded exactly when the condition is non-zero; conditions: {sorted(then_c) if then_c is not None else None}")
+    ctx.check(truth(else_c, False) and else_c is not None and ("node.else_block", True) in else_c, "generate_if:else-arm",
+              f"otherwise the else block is expanded when there is one, else nothing; conditions: {sorted(else_c) if else_c is not None else None}")
     ctx.count("if_facts", 6)
 
 
@@ -89,10 +101,16 @@ def r2_for(ctx: Ctx) -> None:
                   "bound in the iteration's own scope (after use_next_scope) and before the body is expanded, unconditionally")
     gens = [c for c in calls_in(lp) if call_name(c) == "_code_gen"]
     ctx.check(len(gens) == 1 and unparse(gens[0].args[0]) == "node.body.body", "generate_for:body-once", "the body is expanded once per iteration")
-    top = [s for s in lp.body if any(x is g for g in gens for x in ast.walk(s))]
-    ok = len(top) == 1 and isinstance(top[0], ast.AugAssign) and unparse(top[0].target) == "code" and top[0].value is gens[0]
-    ctx.check(ok, "generate_for:body-every-iteration", "the expansion `code += _code_gen(node.body.body, ...)` is an unconditional statement of the loop body: each iteration "
-              "expands the body afresh in its own scope (a cached node list would replay the first iteration's scopes)")
+    if gens:
+        gg = CFG(fn.node)
+        gn = gg.node_containing(gens[0])
+        conds = gg.path_conditions(gn, fn.node)
+        head = gg.node_of(lp)
+        inside = {id(x) for st_ in lp.body for x in ast.walk(st_)}
+        outside = [nid for nid, n in gg.nodes.items() if nid != head and (n.ast is None or id(n.ast) not in inside)]
+        skips = head in gg.reachable([m for m, lab in gg.succ[head] if lab == "loop"], blocked=[gn] + outside)
+        ctx.check(not conds and not skips, "generate_for:body-every-iteration", "the body is expanded unconditionally on every iteration: each iteration expands it afresh in its own scope "
+                  f"(a cached node list would replay the first iteration's scopes); conditions on the expansion: {sorted(conds)}")
     apps = [c for c in calls_in(lp) if (call_name(c) or "").endswith("append_internal_scope")]
     ctx.check(len(apps) == 1, "generate_for:internal-scope", "each iteration has its own internal scope (its labels are not exported to the symbol file)")
     ctx.count("for_facts", 8)
@@ -107,10 +125,13 @@ def r3_parser_binding(ctx: Ctx) -> None:
     a = ctor[0].args
     ctx.check(unparse(inline(a[0], env)) == "parse_expression(p)", "parse_if:condition", "first field is the parsed condition")
     ctx.check(unparse(inline(a[1], env)).startswith("CompoundAstNode(parse_block(p)"), "parse_if:then", "second field is the block that follows")
-    els = [s for s in pi.node.body if isinstance(s, ast.If) and "'else'" in unparse(s.test)]
-    ok = len(els) == 1 and unparse(a[2]) == "else_body" and any(isinstance(b, ast.Assign) and unparse(b.targets[0]) == "else_body" and unparse(b.value).startswith("CompoundAstNode(parse_block(p)") for b in els[0].body)
-    init_none = any(isinstance(s, ast.Assign) and unparse(s) == "else_body = None" for s in pi.node.body)
-    ctx.check(ok and init_none, "parse_if:else", "third field is the block after `else`, None when absent")
+    ok = isinstance(a[2], ast.Name)
+    if ok:
+        ef = assign_facts(pi, a[2].id)  # type: ignore[union-attr]
+        none_f = [c for v, c in ef if v == "None"]
+        blk_f = [c for v, c in ef if v.startswith("CompoundAstNode(parse_block(p)")]
+        ok = len(ef) == 2 and len(none_f) == 1 and not none_f[0] and len(blk_f) == 1 and ("p.current().value == 'else'", True) in blk_f[0]
+    ctx.check(ok, "parse_if:else", "third field is the block after `else`, None when absent")
     # order of parsing: condition, then, else
     order = [s.lineno for s in pi.node.body if "parse_expression(p)" in unparse(s) or "parse_block(p)" in unparse(s)]
     ctx.check(order == sorted(order) and len(order) == 3, "parse_if:order", "condition, then-block, else-block are read in source order")
